@@ -200,7 +200,9 @@ theorem parseBody_fix (c : ClientCfg) (j k : Nat) (st : ReqState) (h0 : Multi)
   unfold parseBody
   by_cases hp : payloadForbid c st.method = true
   · simp [hp, hmi]
-  · simp only [hp, Bool.false_eq_true, ↓reduceIte]
+  · simp only [hp, Bool.false_eq_true, ↓reduceIte, R, Variant.repaired, Bool.not_true, Bool.false_or, hk,
+      Bool.and_false]
+    generalize hform : (if (nonEmpty c.form && j == 0) = true then addAll st.form c.form else st.form) = form
     by_cases hm : st.multipart = true
     · simp only [hm, ↓reduceIte, hp, Bool.false_eq_true, put_put, hmp, true_and, and_true]
       congr 1
@@ -214,14 +216,12 @@ theorem parseBody_fix (c : ClientCfg) (j k : Nat) (st : ReqState) (h0 : Multi)
         apply List.map_congr_left
         intro f hf
         exact filePart_consume c f (hfiles f hf)
-    · simp only [hm, Bool.false_eq_true, ↓reduceIte, R, Variant.repaired, Bool.not_true, Bool.false_or, hk,
-        Bool.and_false]
-      generalize hform : (if (nonEmpty c.form && j == 0) = true then addAll st.form c.form else st.form) = form
-      by_cases hf : nonEmpty form = true
-      · simp [hf, hp, hm, put_put, hmp]
-      · simp only [hf, Bool.false_eq_true, ↓reduceIte]
-        by_cases ho : st.ordered.isEmpty = true
-        · simp only [ho, Bool.not_true, Bool.false_eq_true, ↓reduceIte]
+    · simp only [hm, Bool.false_eq_true, ↓reduceIte]
+      by_cases ho : st.ordered.isEmpty = true
+      · simp only [ho, Bool.not_true, Bool.false_eq_true, ↓reduceIte]
+        by_cases hf : nonEmpty form = true
+        · simp [hf, hp, hm, ho, put_put, hmp]
+        · simp only [hf, Bool.false_eq_true, ↓reduceIte]
           cases hb : st.body with
           | none => simp [hp, hm, hf, ho, hb, hmi]
           | user b => simp [hp, hm, hf, ho, hb, hmi]
@@ -238,6 +238,8 @@ theorem parseBody_fix (c : ClientCfg) (j k : Nat) (st : ReqState) (h0 : Multi)
               · simp [hp, hm, hf, ho, hb, hct, hmp, first_put_self, hj, put_put]
               · simp [hp, hm, hf, ho, hb, hct, hmp, first_put_self, hj]
             · simp [hp, hm, hf, ho, hb, hct, hmi]
+      · by_cases hf : nonEmpty form = true
+        · simp [ho, hp, hm, hf, put_put, hmp]
         · simp [ho, hp, hm, hf, put_put, hmp]
 
 /-- The request after parseRequestHeader and parseRequestCookie. -/
